@@ -16,6 +16,7 @@ import (
 
 	"mellium.im/xmlstream"
 	"mellium.im/xmpp"
+	"mellium.im/xmpp/internal/verifhook"
 	"mellium.im/xmpp/jid"
 	"mellium.im/xmpp/stanza"
 )
@@ -176,6 +177,7 @@ func (c *Conn) Read(b []byte) (n int, err error) {
 	// from the empty buffer will result in 0, io.EOF as expected.
 	if c.readBuf.Len() == 0 {
 		c.readLock.Unlock()
+		verifhook.Yield("ibb.read.wait")
 		<-c.readReady
 		c.readLock.Lock()
 	}
